@@ -181,6 +181,32 @@ def pp_elements(junction=True, include_node_elements=True, include_branch_elemen
     return pp_elms
 
 
+def _junction_reference_mask(net, element, column):
+    """
+    Returns a boolean mask of the rows of net[element] whose entry in the given column refers to a
+    junction. The only column with mixed references is the "element" column of the valves, which
+    refers to a junction for valves of type "ju" and to a pipe for valves of type "pi".
+    """
+    if element == "valve" and column == "element" and "et" in net[element].columns:
+        return (net[element]["et"] == "ju").values
+    return np.ones(len(net[element]), dtype=bool)
+
+
+def _drop_valves_at_missing_pipes(net):
+    """
+    Drops the valves of type "pi" that are connected to a pipe which does not exist (anymore).
+    """
+    if "valve" not in net or not len(net["valve"]) or "et" not in net["valve"].columns:
+        return
+    pipes = net["pipe"].index if "pipe" in net else []
+    dangling = net["valve"].index[(net["valve"]["et"] == "pi").values
+                                  & ~net["valve"]["element"].isin(pipes).values]
+    if len(dangling):
+        net["valve"].drop(dangling, inplace=True)
+        if "res_valve" in net.keys() and isinstance(net["res_valve"], pd.DataFrame):
+            net["res_valve"].drop(net["res_valve"].index.intersection(dangling), inplace=True)
+
+
 def reindex_junctions(net, junction_lookup):
     """
     Changes the index of net.junction and considers the new junction indices in all other
@@ -261,7 +287,12 @@ def reindex_elements(net, element, lookup):
     if element == "junction":
         for element, value in element_junction_tuples(net=net):
             if element in net.keys():
-                net[element][value] = get_indices(net[element][value], lookup)
+                mask = _junction_reference_mask(net, element, value)
+                if np.all(mask):
+                    net[element][value] = get_indices(net[element][value], lookup)
+                elif np.any(mask):
+                    rows = net[element].index[mask]
+                    net[element].loc[rows, value] = get_indices(net[element].loc[rows, value], lookup)
     elif element == "pipe":
         if "valve" in net:
             pipe_valves = net["valve"].loc[net["valve"]["et"] == "pi", "element"]
@@ -371,7 +402,8 @@ def fuse_junctions(net, j1, j2, drop=True):
     j2 = set(j2) - {j1} if isinstance(j2, Iterable) else [j2]
 
     for element, value in element_junction_tuples(net=net):
-        i = net[element][net[element][value].isin(j2)].index
+        mask = _junction_reference_mask(net, element, value)
+        i = net[element][net[element][value].isin(j2).values & mask].index
         net[element].loc[i, value] = j1
 
     if drop:
@@ -410,8 +442,14 @@ def select_subnet(net, junctions, include_results=False, keep_everything_else=Fa
     comp_junc_rows = {tbl: [jr for el, jr in comp_tuples if el == tbl] for tbl in
                       set([v[0] for v in comp_tuples])}
     for comp_tbl, junc_rows in comp_junc_rows.items():
-        isin_all = np.all([net[comp_tbl][jr].isin(junctions) for jr in junc_rows], axis=0)
+        isin_all = np.all([net[comp_tbl][jr].isin(junctions).values
+                           | ~_junction_reference_mask(net, comp_tbl, jr) for jr in junc_rows], axis=0)
         p2[comp_tbl] = net[comp_tbl][isin_all]
+    # valves connected to pipes are only part of the subnet if their pipe is
+    if "valve" in p2 and len(p2["valve"]) and "et" in p2["valve"].columns:
+        pipes = p2["pipe"].index if "pipe" in p2 else []
+        p2["valve"] = p2["valve"][(p2["valve"]["et"] != "pi").values
+                                  | p2["valve"]["element"].isin(pipes).values]
 
     if include_results:
         for table in net.keys():
@@ -485,8 +523,10 @@ def drop_elements_at_junctions(net, junctions, node_elements=True, branch_elemen
     """
     for element, column in element_junction_tuples(node_elements, branch_elements,
                                                    include_res_elements=False, net=net):
-        if any(net[element][column].isin(junctions)):
-            eid = net[element][net[element][column].isin(junctions)].index
+        at_junctions = net[element][column].isin(junctions).values \
+            & _junction_reference_mask(net, element, column)
+        if any(at_junctions):
+            eid = net[element][at_junctions].index
             if element == 'pipe':
                 drop_pipes(net, eid)
             # elif element == 'trafo' or element == 'trafo3w':
@@ -519,6 +559,8 @@ def drop_pipes(net, pipes):
     if "res_pipe" in net.keys():
         res_pipes = net.res_pipe.index.intersection(pipes)
         net["res_pipe"].drop(res_pipes, inplace=True)
+    # valves that were attached to the dropped pipes would reference a missing pipe
+    _drop_valves_at_missing_pipes(net)
     logger.info("dropped %d pipes" % len(list(pipes)))
 
 
